@@ -4,7 +4,7 @@ import json
 from . import javagen
 
 FAMILY = "javafull"
-GEN_GROUPS = ["JavaFull"]
+GEN_GROUPS = ["JavaFull", "Ident"]
 
 PKGS = ["com.shop.order", "com.shop.user", "com.shop"]
 CLASSES = ["Order", "OrderService", "User", "UserRepo", "Item", "Helper", "MyOrder"]
@@ -246,7 +246,7 @@ def project_case(rng):
         extra["src/test/java/x/SkipTest.java"] = "package x; public class SkipTest { void t() { run(); } }\n"
         extra["notes/readme.java.txt"] = "class Nope {}"
     files.update(extra)
-    return {"op": "full", "files": files, "units": [{"path": b["path"], "events": b["events"]} for b in built],
+    return {"op": "full", "files": files, "units": [{"path": b["path"], "events": b["events"], "ievents": b["facts"]["ievents"]} for b in built],
             "identKeys": [b["unit"]["pkg"] + "." + b["unit"]["name"] for b in built],
             "truth": [{"path": b["path"], "pkg": b["unit"]["pkg"], "name": b["unit"]["name"], "kind": b["unit"]["kind"], "ext": b["unit"].get("ext"),
                        "annos": [javagen.anno_model(a) for a in b["unit"].get("annos", [])], "imports": b["unit"]["imports"],
@@ -262,9 +262,9 @@ def strip_fns(fns):
 
 def view(o):
     if isinstance(o, dict) and "nodes" in o:
-        return {"nodes": o["nodes"]}
+        return {"nodes": o["nodes"], "identifiers": o.get("identifiers", [])}
     if isinstance(o, dict) and "runs" in o:
-        return {"runs": [{"nodes": r["nodes"]} for r in o["runs"]]}
+        return {"runs": [{"nodes": r["nodes"], "identifiers": r.get("identifiers", [])} for r in o["runs"]]}
     return o
 
 
@@ -382,7 +382,7 @@ def make(prop):
     m.PROP = prop
     m.FAMILY = FAMILY
     m.GEN_GROUPS = GEN_GROUPS + (["Ident", "Call", "Api"] if prop == "C07" else [])
-    m.PROPS = [prop]
+    m.PROPS = [prop] + (["C01Ident"] if prop in ("C01", "C07") else [])
     m.gen = gen_c07 if prop == "C07" else gen
     m.view = view
     m.nontrivial = nontrivial
